@@ -35,6 +35,18 @@
 //!     call, itself not judged) - the third way a checkpoint disappears. Same oracles: listed set = newest
 //!     min(i, N) after every creation, every listed checkpoint restorable - by its name when exactly one
 //!     listed checkpoint carries it - to its own recorded observation vector, list unchanged by a rollback.
+//!   * retention after going far back (part "refill", same 1.1 s spacing, max N in 3..4): N..N+1 creations fill
+//!     the list, then `ROLLBACK TO` the OLDEST retained checkpoint (sometimes the second oldest of four) - one
+//!     with at least two newer checkpoints still retained - puts the whole database, and with it anything the
+//!     checkpoint machinery keeps in the database, back to the oldest moment retention still allows; then N..N+1
+//!     further creations follow (in two fifths of the gaps another rollback, to any retained checkpoint or to the
+//!     oldest one again), i.e. enough that every checkpoint that existed at the time of that rollback has to be
+//!     purged. Same oracle after EVERY creation: the listed set is the newest min(i, N) in the order the
+//!     statements were executed - a checkpoint created after the rollback is newer than every checkpoint
+//!     created before it, whichever image the database content came from - and at the end every retained
+//!     checkpoint is rolled back to and compared. (The other two retention parts never get there: with N <= 2
+//!     a rollback target has at most one newer retained checkpoint, and they do not follow a rollback with N
+//!     creations.)
 //!
 //! All four statement entry points of the router are driven (`Cfg::async_mode`): execute_parsed,
 //! execute_parsed_async, and parse-then-execute_statement / execute_statement_async, either for CHECKPOINT /
@@ -496,6 +508,9 @@ struct Runner {
     /// checkpoints that retention (strict part) or CheckpointManager::delete has removed so far
     purged: u64,
     rb_since_creation: bool,
+    /// ids listed when the earliest not yet turned-over "deep" rollback happened (strict retention only): a
+    /// rollback to a checkpoint with at least two newer retained ones. Evidence only.
+    deep_rb: Option<BTreeSet<String>>,
 }
 
 fn count(c: &mut BTreeMap<String, u64>, k: &str, n: u64) {
@@ -560,6 +575,7 @@ impl Runner {
             rb_resolved: HashMap::new(),
             purged: 0,
             rb_since_creation: false,
+            deep_rb: None,
         })
     }
 
@@ -851,6 +867,18 @@ impl Runner {
             self.resync(&listed);
         } else if self.cfg.strict_retention {
             count(&mut self.counters, "retention_list_checks_passed", 1);
+            // evidence: creations judged after a rollback that went back past two or more retained checkpoints,
+            // and how often everything that was listed at the time of such a rollback has been turned over
+            if !id.is_empty() {
+                if let Some(then) = &self.deep_rb {
+                    count(&mut self.counters, "retention_creations_judged_after_a_deep_rollback", 1);
+                    if !self.expected.iter().any(|e| then.contains(&e.id)) {
+                        count(&mut self.counters, "retention_turnovers_after_a_deep_rollback", 1);
+                        count(&mut self.counters, &format!("retention_turnovers_after_a_deep_rollback[max_checkpoints={}]", self.cfg.max_cp), 1);
+                        self.deep_rb = None;
+                    }
+                }
+            }
         }
     }
 
@@ -956,6 +984,16 @@ impl Runner {
         self.rb_since_creation = true;
         if self.cfg.strict_retention && self.purged > 0 {
             count(&mut self.counters, "rollbacks_after_a_purge", 1);
+        }
+        if self.cfg.strict_retention {
+            // `expected` is in the order of creation: how many retained checkpoints are newer than the target?
+            let newer = self.expected.iter().position(|e| e.id == id).map_or(0, |p| self.expected.len() - 1 - p);
+            if newer >= 2 {
+                count(&mut self.counters, "rollbacks_past_two_or_more_retained_checkpoints", 1);
+                if self.deep_rb.is_none() {
+                    self.deep_rb = Some(pre.iter().map(|l| l.id.clone()).collect());
+                }
+            }
         }
         if by_name && self.ever_listed.iter().any(|(i, n)| *i != id && *n == name && !pre.iter().any(|l| l.id == *i)) {
             count(&mut self.counters, "rollbacks_by_name_once_carried_by_a_purged_checkpoint", 1);
@@ -1593,6 +1631,9 @@ enum Seg {
     CpRecycled,
     /// recycle part: CheckpointManager::delete of a listed checkpoint
     Forget,
+    /// refill part: roll back to the oldest retained checkpoint (one time in four, with more than three
+    /// retained, to the second oldest)
+    RbOld,
 }
 
 struct Gen {
@@ -1936,6 +1977,17 @@ impl Source for Gen {
                     let l = view.listed_labels[self.rng.below(view.listed_labels.len())];
                     return Some(Item::Forget { label: l });
                 }
+                Seg::RbOld => {
+                    // listed_labels is oldest first
+                    if view.listed_labels.is_empty() {
+                        continue;
+                    }
+                    let at = usize::from(view.listed_labels.len() > 3 && self.rng.chance(1, 4));
+                    let l = view.listed_labels[at];
+                    self.last_rb = Some(l);
+                    let by_id = self.by_id();
+                    return Some(Item::Rb { label: l, by_id });
+                }
                 Seg::Battery => return Some(Item::Battery),
                 Seg::Hnsw => return Some(Item::Hnsw),
                 Seg::Sleep(ms) => return Some(Item::Sleep(ms)),
@@ -2126,6 +2178,63 @@ fn recycle_plan(rng: &mut Rng, cfg: &Cfg, deep: bool) -> Vec<Seg> {
                 segs.push(Seg::Forget);
                 segs.push(Seg::Phase(rng.below(3)));
             }
+        }
+    }
+    segs.push(Seg::RbAllNewestFirst);
+    segs.push(Seg::Battery);
+    segs
+}
+
+/// retention after going far back: fill the list (N or N+1 creations >= 1.1 s apart), roll back to the oldest
+/// retained checkpoint, then create N or N+1 more, so that every checkpoint that existed at the time of the
+/// rollback has to be purged, one per creation, while the ones created since stay
+fn refill_plan(rng: &mut Rng, cfg: &Cfg) -> Vec<Seg> {
+    let n = cfg.max_cp;
+    // (at most CP_TOTAL_CAP - 1 creations per program)
+    let room = (CP_TOTAL_CAP - 1).saturating_sub(2 * n);
+    let pre = n + rng.below(room.min(1) + 1);
+    let post = n + rng.below((CP_TOTAL_CAP - 1).saturating_sub(pre + n).min(1) + 1);
+    let creation = |rng: &mut Rng, segs: &mut Vec<Seg>| {
+        let kind = if cfg.auto_cp && rng.chance(1, 5) { Seg::AutoCp } else { Seg::CpRecycled };
+        if kind == Seg::AutoCp {
+            // something to destroy: the statement is chosen among existing things
+            segs.push(Seg::Phase(2));
+        }
+        segs.push(kind);
+        segs.push(Seg::Sleep(1100));
+        segs.push(Seg::Phase(1 + rng.below(4)));
+    };
+    let mut segs = vec![Seg::Phase(3 + rng.below(5))];
+    for k in 0..pre {
+        creation(rng, &mut segs);
+        if k + 1 < pre && rng.chance(1, 5) {
+            segs.push(Seg::Rb);
+            segs.push(Seg::Phase(rng.below(3)));
+        }
+    }
+    segs.push(Seg::RbOld);
+    if rng.chance(1, 3) {
+        segs.push(Seg::Battery);
+    }
+    segs.push(Seg::Phase(rng.below(4)));
+    for k in 0..post {
+        creation(rng, &mut segs);
+        if k + 1 == post {
+            break;
+        }
+        match rng.below(5) {
+            0 => {
+                segs.push(Seg::Rb);
+                if rng.chance(1, 3) {
+                    segs.push(Seg::Battery);
+                }
+                segs.push(Seg::Phase(rng.below(3)));
+            }
+            1 => {
+                segs.push(Seg::RbOld);
+                segs.push(Seg::Phase(rng.below(3)));
+            }
+            _ => {}
         }
     }
     segs.push(Seg::RbAllNewestFirst);
@@ -2406,6 +2515,35 @@ fn recycle_case(case_seed: u64, report: &mut Report, trace: bool, deep: bool) {
     report_outcome("recycle", case_seed, &cfg, o, report, false);
 }
 
+fn refill_case(case_seed: u64, report: &mut Report, trace: bool) {
+    let mut rng = Rng::new(case_seed ^ 0x2EF111);
+    let mut cfg = retention_cfg(&mut rng);
+    cfg.near_names = false;
+    // a rollback target needs two newer retained checkpoints; CP_TOTAL_CAP allows 2 x 4 creations
+    cfg.max_cp = [3, 3, 4][rng.below(3)];
+    let segs = refill_plan(&mut rng, &cfg);
+    let mut g = Gen::new(rng.fork(4), &cfg, segs);
+    g.recycle_names = recycle_names(&mut rng, &cfg);
+    let o = run_script(&cfg, &mut g, trace, Duration::from_secs(240));
+    for (k, to) in [("checkpoints_created", "refill_creations"), ("rollbacks_done", "refill_rollbacks"), ("retention_list_checks_passed", "refill_list_checks_passed")] {
+        if let Some(n) = o.counters.get(k) {
+            report.count(to, *n);
+        }
+    }
+    report.count(&format!("cases[refill][max_checkpoints={}]", cfg.max_cp), 1);
+    report_outcome("refill", case_seed, &cfg, o, report, false);
+}
+
+/// non-vacuity of the refill part (`mult` = 3 when the part runs alone with three times the cases)
+fn refill_floors(args: &Args, mult: u64) -> Vec<(&'static str, u64)> {
+    vec![
+        ("cases[refill]", mult * args.by_tier(5, 40)),
+        ("rollbacks_past_two_or_more_retained_checkpoints", mult * args.by_tier(5, 40)),
+        ("retention_creations_judged_after_a_deep_rollback", mult * args.by_tier(15, 120)),
+        ("retention_turnovers_after_a_deep_rollback", mult * args.by_tier(4, 30)),
+    ]
+}
+
 /// non-vacuity of the recycle part (`mult` = 3 when the part runs alone with three times the cases)
 fn recycle_floors(args: &Args, mult: u64) -> Vec<(&'static str, u64)> {
     vec![
@@ -2444,6 +2582,8 @@ fn main() {
                     retention_case(seed, &mut total, true)
                 } else if part == "recycle" {
                     recycle_case(seed, &mut total, true, !args.quick())
+                } else if part == "refill" {
+                    refill_case(seed, &mut total, true)
                 } else {
                     cycle_case(seed, &mut total, true)
                 }
@@ -2459,12 +2599,36 @@ fn main() {
         let rep = if only.as_deref() == Some("recycle") {
             // (development aid: `--part recycle` runs the recycle part alone)
             par_cases(args.threads, args.seed, args.by_tier(48u64, 400u64), args.budget(75, 900), |_, s, r| recycle_case(s, r, false, deep))
+        } else if only.as_deref() == Some("refill") {
+            // (development aid: `--part refill` runs the refill part alone)
+            par_cases(args.threads, args.seed, args.by_tier(24u64, 180u64), args.budget(75, 900), |_, s, r| refill_case(s, r, false))
         } else {
             // recycle cases (which mostly sleep, too) are spread evenly among the cases of the two older
             // parts, which keep the case seeds they had before this part existed
             let n_rec = args.by_tier(16u64, 130u64);
             let gap = (n_total + n_rec) / n_rec;
-            par_cases(args.threads, args.seed, n_total + n_rec, args.budget(80, 960), |i, s, r| {
+            let n_old = n_total + n_rec;
+            // refill cases (8-9 s of sleeping each) are spread evenly among all of those, which keep the
+            // positions relative to each other, and the case seeds, they had before this part existed
+            let n_ref = args.by_tier(8u64, 60u64);
+            let gap_ref = (n_old + n_ref) / n_ref;
+            let mut slots: Vec<Option<u64>> = Vec::with_capacity((n_old + n_ref) as usize);
+            let (mut olds, mut refs) = (0u64, 0u64);
+            while olds < n_old || refs < n_ref {
+                let at = slots.len() as u64;
+                if refs < n_ref && (olds == n_old || at % gap_ref == gap_ref / 4) {
+                    slots.push(None);
+                    refs += 1;
+                } else {
+                    slots.push(Some(olds));
+                    olds += 1;
+                }
+            }
+            par_cases(args.threads, args.seed, n_old + n_ref, args.budget(90, 1020), |i, s, r| {
+                let Some(i) = slots[i as usize] else {
+                    return refill_case(s, r, false);
+                };
+                let s = case_seed(args.seed, i);
                 let (q, at) = (i / gap, i % gap);
                 if q < n_rec && at == gap / 3 {
                     return recycle_case(s, r, false, deep);
@@ -2490,7 +2654,7 @@ fn main() {
 
     let meta = Meta {
         property: "C08",
-        rule: "one evaluation = one program run on a fresh QueryRouter (blob + checkpoint manager initialised): <=40 random relational/graph/vector statements per phase, 1-4 manual checkpoints (named or unnamed; plus automatic ones before destructive statements in a quarter of the cases), 1-6 rollbacks to any still-listed checkpoint by id or by name (newest, older, or the same one again), must-work write batteries, further phases and cycles. At every CHECKPOINT the observation vector (about 370 read statements through execute_parsed: SHOW TABLES, DESCRIBE, per-table scan / int equality / text equality / int, text and float range / COUNT(*) selects over 4 tables with and without hash index, NODE GET + NEIGHBORS x3 + EDGE GET for ids 1..48, NODE/EDGE LIST, FIND NODE/EDGE, CONSTRAINT LIST, GRAPH INDEX SHOW, EMBED GET per key, SIMILAR by vector in 3 metrics and by key, COUNT/SHOW EMBEDDINGS; plus 4 SIMILAR statements through the legacy execute path) is recorded and must be answered identically right after ROLLBACK TO that checkpoint; after a rollback INSERT/UPDATE (equality, range and text conditions)/DELETE/CREATE TABLE/CREATE INDEX/NODE CREATE/EDGE CREATE/EMBED STORE must succeed, be visible and leave all other rows/nodes/edges untouched; CHECKPOINTS must list the same set before and after a rollback, every created checkpoint is listed and every listed one can be restored. Retention part: max N in 1..3, N+1..N+2 checkpoints created >= 1.1 s apart - manual CHECKPOINT statements and, in three fifths of the cases, automatic checkpoints taken by the router before a destructive statement (NODE DELETE / EMBED DELETE with auto_checkpoint on), at least one of them when the list is already full - the listed set must be exactly the newest min(i,N) after every creating step of either kind, then every retained checkpoint (automatic ones against the observation vector recorded right before their statement) is rolled back to (newest first) and compared. In half of all cases checkpoint names come from a pool of near-duplicates (same letters in another ASCII case, leading/trailing blanks, the first 8 characters of another checkpoint's id) and three quarters of the rollbacks there go by name; a name that is listed exactly once must restore exactly that checkpoint. Recycle part (repeated checkpoint/rollback cycles under retention): max N in 1..3, N+1..N+3 (thorough: ..N+5) creations >= 1.1 s apart - manual ones whose names are drawn with repetition from a pool of N or N+1 names (mostly a name whose earlier bearer retention has purged), automatic ones whose names repeat by construction - and between the creations rollbacks to any retained checkpoint (three quarters by name when the name is listed exactly once), sweeps over every retained checkpoint, write batteries, and in an eighth of the gaps CheckpointManager::delete of a retained checkpoint; the same oracles apply after every step (listed set = newest min(i,N) after each creation; every listed checkpoint restorable to its own recorded observation vector also when the same ROLLBACK TO text restored another, since purged, checkpoint earlier in the program; list unchanged by a rollback); a database that answers exactly as recorded for a checkpoint that is no longer listed has its own signature. Distinct by the hash of the executed item texts; non-trivial if at least one rollback was compared whose checkpoint was followed by a successful write.",
+        rule: "one evaluation = one program run on a fresh QueryRouter (blob + checkpoint manager initialised): <=40 random relational/graph/vector statements per phase, 1-4 manual checkpoints (named or unnamed; plus automatic ones before destructive statements in a quarter of the cases), 1-6 rollbacks to any still-listed checkpoint by id or by name (newest, older, or the same one again), must-work write batteries, further phases and cycles. At every CHECKPOINT the observation vector (about 370 read statements through execute_parsed: SHOW TABLES, DESCRIBE, per-table scan / int equality / text equality / int, text and float range / COUNT(*) selects over 4 tables with and without hash index, NODE GET + NEIGHBORS x3 + EDGE GET for ids 1..48, NODE/EDGE LIST, FIND NODE/EDGE, CONSTRAINT LIST, GRAPH INDEX SHOW, EMBED GET per key, SIMILAR by vector in 3 metrics and by key, COUNT/SHOW EMBEDDINGS; plus 4 SIMILAR statements through the legacy execute path) is recorded and must be answered identically right after ROLLBACK TO that checkpoint; after a rollback INSERT/UPDATE (equality, range and text conditions)/DELETE/CREATE TABLE/CREATE INDEX/NODE CREATE/EDGE CREATE/EMBED STORE must succeed, be visible and leave all other rows/nodes/edges untouched; CHECKPOINTS must list the same set before and after a rollback, every created checkpoint is listed and every listed one can be restored. Retention part: max N in 1..3, N+1..N+2 checkpoints created >= 1.1 s apart - manual CHECKPOINT statements and, in three fifths of the cases, automatic checkpoints taken by the router before a destructive statement (NODE DELETE / EMBED DELETE with auto_checkpoint on), at least one of them when the list is already full - the listed set must be exactly the newest min(i,N) after every creating step of either kind, then every retained checkpoint (automatic ones against the observation vector recorded right before their statement) is rolled back to (newest first) and compared. In half of all cases checkpoint names come from a pool of near-duplicates (same letters in another ASCII case, leading/trailing blanks, the first 8 characters of another checkpoint's id) and three quarters of the rollbacks there go by name; a name that is listed exactly once must restore exactly that checkpoint. Recycle part (repeated checkpoint/rollback cycles under retention): max N in 1..3, N+1..N+3 (thorough: ..N+5) creations >= 1.1 s apart - manual ones whose names are drawn with repetition from a pool of N or N+1 names (mostly a name whose earlier bearer retention has purged), automatic ones whose names repeat by construction - and between the creations rollbacks to any retained checkpoint (three quarters by name when the name is listed exactly once), sweeps over every retained checkpoint, write batteries, and in an eighth of the gaps CheckpointManager::delete of a retained checkpoint; the same oracles apply after every step (listed set = newest min(i,N) after each creation; every listed checkpoint restorable to its own recorded observation vector also when the same ROLLBACK TO text restored another, since purged, checkpoint earlier in the program; list unchanged by a rollback); a database that answers exactly as recorded for a checkpoint that is no longer listed has its own signature. Refill part (retention after going far back): max N in 3..4, N..N+1 creations >= 1.1 s apart fill the list, ROLLBACK TO the oldest retained checkpoint (a quarter of the time the second oldest of four; always one with two or more newer checkpoints still retained), then N..N+1 further creations - in two fifths of the gaps another rollback, to any retained checkpoint or to the oldest again - so that every checkpoint that existed at the time of that rollback has to be purged, one per creation; after every creation the listed set must be the newest min(i,N) in the order the statements were executed (a checkpoint created after a rollback is newer than every checkpoint created before it), finally every retained checkpoint is rolled back to and compared. Distinct by the hash of the executed item texts; non-trivial if at least one rollback was compared whose checkpoint was followed by a successful write.",
         assumptions: vec![
             "set-valued answers (rows, node/edge lists, neighbour ids, key lists) are compared as sets; SIMILAR answers on bit-exact scores and on keys except inside a score tie cut by LIMIT".into(),
             "checkpoint creation stamps have 1 s granularity: the retention oracle only judges creations >= 1.1 s apart; in all other programs max_checkpoints = 100 so retention never acts".into(),
@@ -2499,6 +2663,7 @@ fn main() {
             "ROLLBACK TO by name is only issued when exactly one listed checkpoint carries exactly that name and no listed id equals it; otherwise the id is used".into(),
             "ROLLBACK TO is not a retention event: the set listed by CHECKPOINTS may not change across it".into(),
             "recycle part: a name carried by several checkpoints over time stands, at any moment, for the one listed checkpoint that carries it (by-name rollbacks are only issued then); what a name shared by two listed checkpoints resolves to is not judged. CheckpointManager::delete is a set-up call: its own effect is not judged, the harness continues from what CHECKPOINTS lists afterwards, and retention is then judged on that list".into(),
+            "refill part: 'newest' is the order in which the creating statements were executed by this one client, >= 1.1 s apart; a ROLLBACK TO between two creations does not change which of them is newer. At most 8 creations per program, hence N <= 4 there".into(),
             "legacy-path SIMILAR answers recorded while a VectorEngine HNSW cache built by the harness was live are approximate and are not compared; a correct rollback is expected to invalidate that cache like every write path of VectorEngine does".into(),
             "an index built with QueryRouter::build_vector_index() is never built: it is a manual snapshot no write refreshes and its scores differ from the exact search in the last bit".into(),
             "with the router's query cache on, only relational statements are issued (graph/vector writes never invalidate that cache, which is outside this property)".into(),
@@ -2511,8 +2676,11 @@ fn main() {
             vec![]
         } else if args.extra.get("part").map(|p| p.as_str()) == Some("recycle") {
             recycle_floors(&args, 3)
+        } else if args.extra.get("part").map(|p| p.as_str()) == Some("refill") {
+            refill_floors(&args, 3)
         } else {
             let mut f = recycle_floors(&args, 1);
+            f.extend(refill_floors(&args, 1));
             f.extend(vec![
                 ("distinct_nontrivial", args.by_tier(40, 800)),
                 ("rollbacks_done", args.by_tier(80, 1600)),
